@@ -211,6 +211,9 @@ def conc_scenario(rng, prog, gates=True):
     r2 = random.Random(sc["seed"] ^ 0x5A17)     # derived generator: the draws of the scenarios that follow are unchanged
     if r2.random() < 0.3:
         sc["timer_lag"] = r2.choice([0.2, 0.4, 3.0, 45.0])      # the backend fires its timers late
+    if r2.random() < 0.35:
+        # batch limits around the size of one or two updates: updates are parked in the overflow queue and sent in later calls
+        sc["batcher"] = {"bytes": r2.choice([120, 200, 260, 320, 400, 520]), "ops": r2.choice([1, 2, 3, 250, 250])}
     return sc
 
 
@@ -427,6 +430,26 @@ def c09_returns_promptly(ctx, e, bound=2.0):
                                   f"invocation {r.inv}: the map/parallel call {x['how']} {dt:.1f} virtual seconds after its completion event "
                                   f"was set (bound {bound} s; API latency {e.sc.get('api_latency')})", scen_of(e))
                     return
+
+
+def c09_resumed_on_time(ctx, e, bound=1.0):
+    """a branch parked on a timer is handed back to a worker when its timer is due (the timer thread looks at its heap every 100 ms),
+    however many other timers are pending and whichever was registered first.  Programs with one executor only."""
+    for r in e.invocations:
+        if sum(1 for x in r.events if x["ev"] == "ExStart") != 1:
+            continue
+        parked = {}
+        for x in r.events:
+            if x["ev"] == "BodyEnd" and x.get("out") == "tsusp" and x.get("until") is not None:
+                parked[x["i"]] = max(x["until"], x["t"])
+            elif x["ev"] == "Resubmit" and x["i"] in parked:
+                due = parked.pop(x["i"])
+                if x["t"] - due > bound:
+                    ctx.violation("resumed-late", f"invocation {r.inv}: branch {x['i']} was due at t={due:.2f} and handed back to a worker "
+                                                  f"at t={x['t']:.2f} ({x['t'] - due:.1f} virtual seconds late, bound {bound})", scen_of(e))
+                    return
+            elif x["ev"] == "ExReturn":
+                parked.clear()
 
 
 def c09_decided_but_suspended(ctx, e):
